@@ -65,3 +65,5 @@ M("c09-adapter-release-noop-before-use", "C09", SYNC, "LockAdapter.release", "  
 M("c09-adapter-locked-constant", "C09", SYNC, "LockAdapter.locked", "        return self._lock.locked()", "        self._lock.locked()\n        return False", ["R09-g"])
 M("c09-aexit-conditional-release", "C09", SYNC, "Lock.__aexit__", "        self.release()", "        if exc_type is None:\n            self.release()", ["R09-g"])
 M("c09-factory-drops-fast-acquire", "C09", SYNC, "Lock.__new__", "return LockAdapter(fast_acquire=fast_acquire)", "return LockAdapter()", ["R09-g"])
+# from seeded change C09/c (round 2)
+M("c09-adapter-release-skips-unmaterialised", "C09", SYNC, "LockAdapter.release", "        self._lock.release()", "        if self._internal_lock is not None:\n            self._internal_lock.release()", ["R09-g"])
